@@ -30,7 +30,8 @@ RULE = ("cases = (type-consistent nested trees, depth <= 4, for the nine levels 
         "file levels and with each file level alone as .py: every rendering must satisfy the property and all must give the same "
         "view; key vocabulary with one / two leading underscores, trailing underscores, dunder-like names at top level and nested; "
         "don't-care: top-level `__*` names in a .py file), HISTORIES on one Config object (levels loaded, replaced by different content, emptied / unloaded "
-        "again, attribute writes, loads with deferred merge=False and explicit merge(), one load_shell_env at the end; the view is read and judged after EVERY operation and the caller's "
+        "again, attribute writes, RUNTIME EDITS through the object (del by item / attribute, pop, clear() of a section, the same key written again, "
+        "sibling deletions, depth 1-4: a removed setting is absent until written again, a written one wins over every level), loads with deferred merge=False and explicit merge(), one load_shell_env at the end; the view is read and judged after EVERY operation and the caller's "
         "input dicts are compared with snapshots), and random runs of the real CLI (Program.run: flags -> overrides, -f / INVOKE_RUNTIME_CONFIG -> "
         "runtime file, tasks.py -> collection + project file); non-trivial = some path is defined by at least two levels; distinct = distinct cases")
 TRUSTED = ["Lean 4.33 kernel", "axioms propext/Classical.choice/Quot.sound only",
@@ -848,7 +849,75 @@ def gen_history(rng):
         for _ in range(rng.choice([0, 1, 2])):
             p, ty = rng.choice(list(leaves(schema)))
             ops.append({"op": "write", "path": list(p), "value": tag(gen_value(rng, ty))})
-    return {"kind": "history", "ops": ops}
+    return {"kind": "history", "ops": insert_edits(rng, schema, ops)}
+
+
+def hist_visible(st):
+    """the view the levels `st` (with its runtime deletions) define: {leaf path: value}"""
+    want = {}
+    for lvl in ORDER:
+        for p, v in leaves(st[lvl]):
+            want[p] = v
+    for p in st.get("_deleted", ()):
+        want.pop(tuple(p), None)
+    return want
+
+
+def insert_edits(rng, schema, ops):
+    """runtime edits THROUGH the object between the loads: delete a visible setting (del by item / attribute, pop), clear() a
+    section of leaves, write the same key again later (or never), delete siblings - at whatever depth the schema has"""
+    if rng.random() < 0.45:
+        return ops
+    out, pending = [], []
+    roots = hist_roots({"ops": ops})  # (not judged, so not edited either: a .py level may or may not carry them)
+
+    def recreates_deleted_section(p):
+        """would this write have to (re)create a parent section under which runtime deletions are recorded?  Writing a
+        section over runtime-deleted content is C06's recorded finding (section-rewrite-resurrects) - not generated here."""
+        st = hist_levels(out)
+        if not any(d[0] == p[0] for d in st["_deleted"]):
+            return False
+        if hist_stale(out):
+            return True
+        secs = set()
+        for lvl in ORDER:
+            secs |= set(sections(st[lvl]))
+        return any(tuple(p[:j]) not in secs for j in range(1, len(p)))
+    for i, op in enumerate(ops):
+        if op["op"] == "write" and recreates_deleted_section(tuple(op["path"])):
+            continue
+        out.append(op)
+        if hist_stale(out):
+            continue  # (edits go through the merged cache; while a merge is deferred only writes are generated)
+        for _ in range(rng.choice([0, 0, 1, 1, 2])):
+            vis = {p: v for p, v in hist_visible(hist_levels(out)).items() if p[0] not in roots}
+            r = rng.random()
+            if pending and r < 0.35:
+                p = pending.pop(rng.randrange(len(pending)))  # write the deleted key again: the runtime level defines it
+                if recreates_deleted_section(p):
+                    continue
+                out.append({"op": "write", "path": list(p), "value": tag(gen_value(rng, schema_type(schema, p)))})
+            elif vis and r < 0.8:
+                deep = [p for p in vis if len(p) >= 3]
+                p = rng.choice(deep) if deep and rng.random() < 0.6 else rng.choice(sorted(vis))
+                out.append({"op": "del", "path": list(p), "how": rng.choice(["item", "attr", "pop"])})
+                pending.append(p)
+                sib = [q for q in vis if q[:-1] == p[:-1] and q != p]
+                if sib and rng.random() < 0.3:
+                    q = rng.choice(sorted(sib))
+                    out.append({"op": "del", "path": list(q), "how": rng.choice(["item", "attr", "pop"])})
+                    pending.append(q)
+            elif vis:
+                st = hist_levels(out)
+                secs = set()
+                for lvl in ORDER:
+                    secs |= set(sections(st[lvl]))
+                flat = [sp for sp in secs if not any(x[:len(sp)] == sp and x != sp for x in secs) and any(q[:-1] == sp for q in vis)]
+                if flat:
+                    sp = rng.choice(sorted(flat))
+                    out.append({"op": "clear", "path": list(sp)})
+                    pending += [q for q in vis if q[:-1] == sp]
+    return out
 
 
 def hist_roots(case):
@@ -880,12 +949,22 @@ def hist_stale(ops):
 def hist_levels(ops):
     """level contents after the given operations (the env level: as computed when load_shell_env ran)"""
     st = {l: {} for l in ORDER}
+    st["_deleted"] = []
     for op in ops:
         k = op["op"]
         if k == "merge":
             continue
-        if k == "write":
+        if k == "del":
+            if tuple(op["path"]) not in st["_deleted"]:
+                st["_deleted"].append(tuple(op["path"]))
+        elif k == "clear":
+            for q in hist_visible(st):
+                if list(q[:-1]) == op["path"] and q not in st["_deleted"]:
+                    st["_deleted"].append(q)
+        elif k == "write":
             st["modifications"] = overlay(st["modifications"], nest(op["path"], build(op["value"])))
+            if tuple(op["path"]) in st["_deleted"]:
+                st["_deleted"].remove(tuple(op["path"]))  # written again: the runtime level defines it, it wins
         elif k == "env":
             at_load = {}
             for lvl in ORDER:
@@ -893,6 +972,8 @@ def hist_levels(ops):
                     at_load = overlay(at_load, st[lvl])
             env = {}
             for p, cur in leaves(at_load):
+                if p in st["_deleted"]:
+                    continue  # a setting removed at runtime is not an existing setting
                 name = "INVOKE_" + var_of(p)
                 if name in op["environ"]:
                     env = overlay(env, nest(list(p[:-1]), {p[-1]: cast_env(cur, op["environ"][name])}))
@@ -952,6 +1033,23 @@ def run_history(case):
                             cur[key] = {}
                         cur = cur[key]
                     cur[op["path"][-1]] = build(op["value"])
+                elif k in ("del", "clear"):
+                    cur = c
+                    path = op["path"] if k == "clear" else op["path"][:-1]
+                    for n, key in enumerate(path):
+                        plain_attr = key.isidentifier() and not key.startswith("_")
+                        cur = getattr(cur, key) if (plain_attr and (i + n) % 2) else cur[key]
+                    if k == "clear":
+                        cur.clear()
+                    else:
+                        key = op["path"][-1]
+                        how = op["how"] if (key.isidentifier() and not key.startswith("_")) or op["how"] != "attr" else "item"
+                        if how == "attr":
+                            delattr(cur, key)
+                        elif how == "pop":
+                            cur.pop(key)
+                        else:
+                            del cur[key]
                 elif k == "env":
                     os.environ.update(op["environ"])
                     try:
@@ -995,6 +1093,8 @@ def judge_view(case, i, view):
         for lvl in ORDER:
             for p, v in leaves(t[lvl]):
                 want[p] = (lvl, typed(v))
+        for p in t["_deleted"]:
+            want.pop(p, None)  # removed at runtime and not written since: absent, whatever the levels say
         got = {p: typed(v) for p, v in leaves(view)}
         for p, (lvl, tv) in want.items():
             if got.get(p) != tv:
@@ -1018,6 +1118,8 @@ def history_line(case):
     seen = set()
     for op in case["ops"]:
         k = op["op"]
+        if k in ("del", "clear"):
+            break  # the load model (Levels) has no runtime deletions (that is C06's model): compared up to here
         if k == "env":
             parts.append("e=" + enc_environ(op["environ"]))
             continue
@@ -1285,6 +1387,19 @@ def run(ctx):
         out.hist["history_emptied:%d" % min(2, sum(1 for op in c["ops"] if op["op"] in HIST_CODE and (op.get("tree") is None or op.get("tree") == {})))] += 1
         out.hist["history_env:%d" % ("env" in kinds)] += 1
         out.hist["history_unset:%d" % min(2, sum(1 for op in c["ops"] if is_unset(op)))] += 1
+        dels = [op for op in c["ops"] if op["op"] == "del"]
+        out.hist["history_runtime_deletes:%d" % min(3, len(dels) + sum(1 for op in c["ops"] if op["op"] == "clear"))] += 1
+        for op in dels:
+            out.hist["history_delete_depth:%d" % min(4, len(op["path"]))] += 1
+            out.hist["history_delete_how:" + op["how"]] += 1
+        out.hist["history_clear:%d" % min(1, sum(1 for op in c["ops"] if op["op"] == "clear"))] += 1
+        seen_del, rew = set(), 0
+        for op in c["ops"]:
+            if op["op"] == "del":
+                seen_del.add(tuple(op["path"]))
+            elif op["op"] == "write" and tuple(op["path"]) in seen_del:
+                rew += 1
+                out.hist["history_rewrite_after_delete_depth:%d" % min(4, len(op["path"]))] += 1
         out.hist["history_ops_with_shared_subobject:%d" % min(3, sum(1 for op in c["ops"] if op.get("shares")))] += 1
         out.hist["history_deferred_merges:%d" % min(3, sum(1 for op in c["ops"] if op.get("merge") is False))] += 1
         ei = kinds.index("env") if "env" in kinds else None
@@ -1292,7 +1407,9 @@ def run(ctx):
             out.hist["history_env_load_on:%s_cache" % ("stale" if hist_stale(c["ops"][:ei]) else "fresh")] += 1
         if m is not None:
             out.traces += 1
-            got = "|".join("ok " + enc_tree(without_roots(v, hist_roots(c)), canon=True) for v in views) + ("|err:" + exc if exc else "")
+            cut = next((j for j, op in enumerate(c["ops"]) if op["op"] in ("del", "clear")), None)
+            vs = views if cut is None else views[:cut]
+            got = "|".join("ok " + enc_tree(without_roots(v, hist_roots(c)), canon=True) for v in vs) + ("|err:" + exc if exc and cut is None else "")
             if got != m:
                 out.disagree(c, got[:500], m[:500])
         why = oracle_history(c, views, exc, changed)
